@@ -9,6 +9,7 @@ Translated:
   agents/visitor.py         `builtin_decorators`, `stdlib_decorators`; visit_classdef: the bases are the written ones, in order
   agents/inspector.py       inspect_class: which attribute the bases are read from, whether `object` is skipped, the path format
   mixins.py                 ObjectAliasMixin.is_wildcard_exposed as a boolean function of seven atoms
+  agents/nodes/runtime.py   ObjectNode.children: a cached list of the picked members (CList) or a generator (CGenerator)
 """
 from __future__ import annotations
 
@@ -249,6 +250,26 @@ def class_bases(ins_meths, vis_tree) -> dict:
     return {"skips_object": skips}
 
 
+CHILDREN_LIST = ["children = []",
+                 "for name, member in inspect.getmembers(self.obj):\n    if self._pick_member(name, member):\n        children.append(ObjectNode(member, name, parent=self))",
+                 "return children"]
+CHILDREN_GEN = ["for name, member in inspect.getmembers(self.obj):\n    if self._pick_member(name, member):\n        yield ObjectNode(member, name, parent=self)"]
+
+
+def children_impl(node_cls: ast.ClassDef) -> str:
+    """ObjectNode.children: the value that functools.cached_property stores -- a list built from inspect.getmembers filtered by
+    _pick_member, or (refused by the theorem, not by the translator) a generator over the same members."""
+    fn = [n for n in node_cls.body if isinstance(n, ast.FunctionDef) and n.name == "children"]
+    if len(fn) != 1 or [ast.unparse(d) for d in fn[0].decorator_list] != ["cached_property"]:
+        raise TranslatorError("ObjectNode.children is no longer a cached_property")
+    body = [ast.unparse(x) for x in _strip_doc(fn[0].body)]
+    if body == CHILDREN_LIST:
+        return "CList"
+    if body == CHILDREN_GEN:
+        return "CGenerator"
+    raise TranslatorError(f"ObjectNode.children: body outside the whitelist: {body}")
+
+
 def tables() -> dict:
     src = REPO / "src/_griffe"
     rt = ast.parse((src / "agents/nodes/runtime.py").read_text())
@@ -330,7 +351,8 @@ def tables() -> dict:
     builtin = [(_str(k), [_str(v)]) for k, v in zip(bd.keys, bd.values)]
     stdlib = [(_str(k), sorted(_str(e) for e in v.elts)) for k, v in zip(sd.keys, sd.values)]
     return {"rungs": rungs, "default": default, "cyclic": cyclic, "exclude": exclude, "values": values, "handlers": handlers,
-            "kind_map": kind_map, "builtin": builtin, "stdlib": stdlib, "bases": class_bases(meths, vis), "exposed": wildcard_exposed(src)}
+            "kind_map": kind_map, "builtin": builtin, "stdlib": stdlib, "bases": class_bases(meths, vis), "exposed": wildcard_exposed(src),
+            "children": children_impl(node_cls)}
 
 
 def translate(ctx=None) -> Path:
@@ -365,6 +387,8 @@ def translate(ctx=None) -> Path:
             f"Definition exclude_specials : list string := {_coq_strs(t['exclude'])}.", "",
             "(* Inspector.inspect_class reads cls.__bases__ (anything else is refused by the translator); does it skip `object`? *)",
             f"Definition inspector_skips_object : bool := {'true' if t['bases']['skips_object'] else 'false'}.", "",
+            "(* ObjectNode.children: what functools.cached_property stores *)",
+            f"Definition children_impl : citer := {t['children']}.", "",
             "(* ObjectAliasMixin.is_wildcard_exposed for a member of a module *)",
             "Definition wildcard_exposed_tbl (runtime has_all in_all private is_alias is_module is_imported : bool) : bool :=",
             "  " + t["exposed"] + ".", ""]
